@@ -216,12 +216,12 @@ def c10(tier):
     return [Harness('VHarnessBDHKE', 'crypto', ['crypto/zz_verif_bdhke.go'], summaries=('h2c',), bounds='every secret (string of any length), every blinding factor, every key: all symbolic', must_reach=('done',), **kw),
             Harness('VHarnessDLEQ', 'crypto', ['crypto/zz_verif_bdhke.go'], summaries=('h2c',), bounds='every key, blinded message, nonce; arbitrary (e, s, A, B\', C\') for the specification equivalence', must_reach=('complete', 'spec'), **kw),
             Harness('VHarnessDLEQWallet', 'cashu/nuts/nut12', ['cashu/nuts/nut12/zz_verif_dleq.go', 'crypto/zz_verif_bdhke.go'], summaries=('h2c',), bounds='every secret, key, blinding factor, nonce', must_reach=('done',), **kw),
-            Harness('VHarnessHashToCurve', 'crypto', ['crypto/zz_verif_bdhke.go', 'crypto/zz_verif_derive.go'], models=('std', 'crypto', 'json'), crypto_mode='euf', bounds='conformance of the real HashToCurve with the reference term the h2c summary of the other C10 harnesses stands for: every message (string of any length); counter loop unwound 4 times', must_reach=('done',), unwind=6, salt_retries=True),
+            Harness('VHarnessHashToCurve', 'crypto', ['crypto/zz_verif_bdhke.go', 'crypto/zz_verif_derive.go'], models=('std', 'crypto', 'json'), crypto_mode='euf', bounds='conformance of the real HashToCurve with the reference term the h2c summary of the other C10 harnesses stands for: every message (string of any length); counter loop unwound 40 times', must_reach=('done',), unwind=42, salt_retries=True),
             Harness('VHarnessDLEQToken', 'cashu/nuts/nut12', ['cashu/nuts/nut12/zz_verif_dleq.go', 'crypto/zz_verif_bdhke.go'], summaries=('h2c',), bounds='token of 2 proofs over a keyset of 2 keys, every secret / key / blinding factor / nonce; the amount of one proof replaced by any other 64-bit value, in either position', must_reach=('token',), **kw)]
 def c11(tier):
     kw = dict(models=('std', 'crypto', 'json'), crypto_mode='euf')
     F = ['crypto/zz_verif_bdhke.go', 'crypto/zz_verif_derive.go']
-    return [Harness('VHarnessHashToCurve', 'crypto', F, bounds='every message (string of any length); counter loop unwound 4 times (messages needing more iterations: outside, probability 2^-4)', must_reach=('done',), unwind=6, salt_retries=True, **kw),
+    return [Harness('VHarnessHashToCurve', 'crypto', F, bounds='every message (string of any length); counter loop unwound 40 times (messages needing more iterations: outside, probability 2^-40)', must_reach=('done',), unwind=42, salt_retries=True, **kw),
             Harness('VHarnessKeysetId', 'crypto', F, bounds='every set of 1..3 keys with arbitrary distinct 64-bit amounts', must_reach=('done',), **kw),
             Harness('VHarnessKeysetId4', 'crypto', F, bounds='every set of exactly 4 keys with arbitrary distinct 64-bit amounts (every relative order)', must_reach=('done',), **kw),
             Harness('VHarnessKeysetId5', 'crypto', F, bounds='every set of exactly 5 keys with arbitrary distinct 64-bit amounts (every relative order)', must_reach=('done',), **kw),
